@@ -98,18 +98,26 @@ class C19:
         prof = {
             "cv_kinds": ["cost_volume_confidence", "cost_volume_confidence", "aggregation", "optimization"],
             "max_cv": 4, "dm_kinds": ["filter", "refinement", "validation"], "max_dm": 3, "mask_p": 0.4,
-            "mono_p": 0.75, "fill_p": 0.4, "mc": {"max_window": 3},
+            "mono_p": 0.75, "fill_p": 0.4, "mc": {"max_window": 3}, "intervals": True, "intervals_p": 0.25,
         }
+        if rnd.random() < 0.12:
+            prof["invalid"] = rnd.choice(["inf", "-inf"])
         w = pipeline.gen_world_for(rnd, prof)
         w["rows"], w["cols"] = rnd.randint(6, 12), rnd.randint(8, 14)
-        w["georef"] = {"crs": "EPSG:32631", "transform": [0.5, 0.0, 300000.0, 0.0, -0.5, 4800000.0],
+        rot = rnd.choice([0.0, 0.0, 0.125])
+        w["georef"] = {"crs": "EPSG:32631", "transform": [0.5, rot, 300000.0, -rot, -0.5, 4800000.0],
                        # the right image has its own footprint: right products carry the right image's georeferencing
-                       "transform_right": [0.5, 0.0, 300012.5, 0.0, -0.5, 4800000.0]} if rnd.random() < 0.5 else None
+                       "transform_right": [0.5, rot, 300012.5, -rot, -0.5, 4800000.0]} if rnd.random() < 0.5 else None
         if w["disp"]["kind"] == "grid" and rnd.random() < 0.5:
             w["disp_right"] = None
         prog = pipeline.gen_program(rnd, w, prof)
         if w["disp"]["kind"] == "grid" and not w.get("disp_right"):
             prog = [s for s in prog if programs.kind_of(s[0]) != "validation"]
+        if rnd.random() < 0.25:
+            # the only validation step carries a suffix
+            vs = [st for st in prog if programs.kind_of(st[0]) == "validation"]
+            if len(vs) == 1 and vs[0][0] == "validation":
+                vs[0][0] = "validation.x"
         nod = rnd.choice([-9999, -9999, "NaN", 0])
         mode = rnd.choices(["plain", "preexisting", "stale", "out_is_file", "write_faults"], [5, 1, 1, 1, 2])[0]
         return {"harness": "cli", "world": w, "program": prog, "nodata": nod, "mode": mode,
